@@ -252,17 +252,24 @@ type WFault struct {
 // It is application state (the sink of a logger), not framework state, and the logging library
 // lets two loggers derived from one parent write to the parent's writer under different
 // mutexes (DESIGN.md D3) - which a timer callback logging next to its request's handler does.
-// The sink therefore keeps out of the race detector's sight entirely: a fixed array filled by a
-// plain loop in a norace function (append would go through runtime.growslice, which reports the
+// The sink therefore keeps out of the race detector's sight entirely: a buffer grown and filled by
+// plain loops in norace functions (append would go through runtime.growslice, which reports the
 // access on the caller's behalf).
 type reqSink struct {
-	buf [4096]byte
+	buf []byte
 	n   int
 }
 
 //go:norace
 func (s *reqSink) Write(p []byte) (int, error) {
-	for i := 0; i < len(p) && s.n < len(s.buf); i++ {
+	if s.n+len(p) > len(s.buf) {
+		nb := make([]byte, 2*len(s.buf)+len(p)+256)
+		for i := 0; i < s.n; i++ {
+			nb[i] = s.buf[i]
+		}
+		s.buf = nb
+	}
+	for i := 0; i < len(p); i++ {
 		s.buf[s.n] = p[i]
 		s.n++
 	}
